@@ -184,8 +184,14 @@ def explore(ctx):
         try:
             p = d.plotter()
             if mode == 'default':
-                keytb = {int(s.idx): tie.to_scaled(s.get_peak(subtree=True)[1], c) for s in d}
-                keyfn = lambda s: s.get_peak(subtree=True)[1]
+                # the default key is the brightest pixel of the structure with its substructures: taken here from the
+                # pixel values themselves (a branch may own a spike above all its children), not from get_peak
+                def brightest(s):
+                    own = [max(float(v) for v in x._values) for x in [s] + list(s.descendants)] if kind == 'synthetic' \
+                        else [float(np.max(np.asarray(s.values(subtree=True), dtype=float)))]
+                    return max(own)
+                keytb = {int(s.idx): tie.to_scaled(brightest(s), c) for s in d}
+                keyfn = brightest
                 p.sort(reverse=reverse)
             else:
                 keytb = {int(s.idx): rng.randint(0, 4) for s in d}
